@@ -299,7 +299,14 @@ pub fn make_case(input: &Input) -> Result<Case, String> {
         let re1 = serde_json::from_str::<serde_json::Value>(&pretty_txt).map(|r| r == jv).unwrap_or(false);
         let re2 = serde_json::from_str::<serde_json::Value>(&compact_txt).map(|r| r == jv).unwrap_or(false);
         let text = format!("{}", graph.pretty_print());
-        Ok::<_, String>((jv, re1 && re2, text))
+        // Graph::display_json into a file that already holds a LONGER document: the file must then hold exactly this graph
+        let path = std::path::PathBuf::from(format!("c14-display-json-{}.json", std::process::id()));
+        let filler = format!("{{\"old\": \"{}\"}}", "x".repeat(pretty_txt.len() + 64));
+        let file_ok = std::fs::write(&path, filler).is_ok()
+            && graph.display_json(Some(&path)).is_ok()
+            && std::fs::read_to_string(&path).map(|t| serde_json::from_str::<serde_json::Value>(&t).map(|r| r == jv).unwrap_or(false)).unwrap_or(false);
+        let _ = std::fs::remove_file(&path);
+        Ok::<_, String>((jv, re1 && re2 && file_ok, text))
     }));
     let (ij_coq, reparse_ok, text) = match obs {
         Ok(Ok((jv, ok, text))) => (json_coq(&jv, &addr), ok, text),
